@@ -13,6 +13,7 @@ Serves C01 C02 C03 C05 C08 C17 C19.  Grammar (one request per line):
   read                              drives(), modulation() of every device
   obs <dev>                         the full observation record of one device (diagnosis)
   rawframe <dev> <hex>              deliver an arbitrary 626-byte frame (not SDK-producible)
+  note <text>                       an implementation-only oracle case ran here (answer: ok)
 
 <dg> ::= clear | sync | fan b | reads b | cpugpio v | gpioin flags | debug v0 v1 v2 v3
        | phasecorr seed | pwe seed | pwedefault | modraw seg tr rep div hex | silsteps i p strict | silrate i p
@@ -334,6 +335,7 @@ def step (st : St) (line : String) : St × String :=
         ({ st with devs := st.devs.set dv { d with fw := setThermo d.fw (on = 1) } }, "ok")
       else (st, "bad-op")
     | _, _ => (st, "bad-op")
+  | _, "note" :: _ => (st, "ok")
   | _, ["read"] =>
     let parts := st.devs.toList.map fun d =>
       let dr := match Obs.drives d.fw with | .ok ds => toString (fnv64 (wordsBytes ds)) | .error _ => "P"
